@@ -363,9 +363,32 @@ func cmdCheck(args []string) {
 			o.Hint = lockHints[o.Name]
 		}
 	}
+	// Obligations that share kind and text within a function differ only by an occurrence index (#k), which shifts
+	// when a site is inserted or removed. They are therefore budgeted per base name: at most as many of them may
+	// fail as are listed in undecided.txt / known-findings.txt for that base.
+	genCount := map[string]int{}
+	for _, g := range gens {
+		for _, o := range g.obls {
+			genCount[baseName(o.Name)]++
+		}
+	}
+	refCount := map[string]int{}
+	undCount := map[string]int{}
+	for name := range lock {
+		refCount[baseName(name)]++
+	}
+	for name := range undecided {
+		refCount[baseName(name)]++
+		undCount[baseName(name)]++
+	}
+	for name := range anyFinding {
+		refCount[baseName(name)]++
+		undCount[baseName(name)]++
+	}
+	sameSites := func(name string) bool { b := baseName(name); return genCount[b] == refCount[b] }
 	s.solveAll(gens, func(o *Obligation) bool {
-		// undecided obligations are not run in the quick tier (they are not claimed)
-		if undecided[o.Name] && *tier == "quick" {
+		// undecided obligations are not run in the quick tier (they are not claimed), unless the sites changed
+		if undecided[o.Name] && *tier == "quick" && sameSites(o.Name) {
 			return false
 		}
 		return true
@@ -389,6 +412,7 @@ func cmdCheck(args []string) {
 		}
 	}
 	var violations []map[string]interface{}
+	shifted := map[string][]*Obligation{}
 	nObl, nDis := 0, 0
 	backend := map[string]int{}
 	var samples []interface{}
@@ -427,14 +451,19 @@ func cmdCheck(args []string) {
 				}
 				continue
 			}
-			if anyFinding[o.Name] {
+			if anyFinding[o.Name] && sameSites(o.Name) {
 				continue // listed under another property
 			}
-			if undecided[o.Name] {
+			if undecided[o.Name] && sameSites(o.Name) {
 				notProved = append(notProved, o.Name)
 				continue
 			}
 			_, locked := lock[o.Name]
+			if !sameSites(o.Name) {
+				// sites of this base changed: budget below
+				shifted[baseName(o.Name)] = append(shifted[baseName(o.Name)], o)
+				continue
+			}
 			nObl++
 			if oblOK(o) {
 				nDis++
@@ -451,6 +480,33 @@ func cmdCheck(args []string) {
 			violations = append(violations, map[string]interface{}{"obligation": o.Name, "reason": reason})
 		}
 	}
+	// bases whose number of sites changed: as many failures as were undecided before are tolerated
+	var sbases []string
+	for b := range shifted {
+		sbases = append(sbases, b)
+	}
+	sort.Strings(sbases)
+	for _, b := range sbases {
+		var failing []*Obligation
+		for _, o := range shifted[b] {
+			if oblOK(o) {
+				nObl++
+				nDis++
+				backend[strings.TrimSuffix(o.Solver, " (cached)")]++
+			} else {
+				failing = append(failing, o)
+			}
+		}
+		budget := undCount[b]
+		for i, o := range failing {
+			if i < budget {
+				notProved = append(notProved, o.Name)
+				continue
+			}
+			nObl++
+			violations = append(violations, map[string]interface{}{"obligation": o.Name, "reason": fmt.Sprintf("%d of %d obligations %s fail, %d were undecided on the reference tree", len(failing), len(shifted[b]), b, budget)})
+		}
+	}
 	// locked obligations of this property that were not generated at all
 	var lockedNames []string
 	for name, ps := range lock {
@@ -461,6 +517,9 @@ func cmdCheck(args []string) {
 	sort.Strings(lockedNames)
 	for _, name := range lockedNames {
 		if _, ok := byName[name]; !ok {
+			if genCount[baseName(name)] > 0 && !sameSites(name) {
+				continue // the sites of this base were renumbered; handled by the per-base budget
+			}
 			fn := name[:strings.Index(name, "#")]
 			skip := false
 			for _, v := range violations {
@@ -519,6 +578,25 @@ func cmdCheck(args []string) {
 			fmt.Printf("VIOLATION property=%s replay=%s no-failing-input-found\n", id, rp)
 		}
 	}
+	// bounded stand-ins registered for this property (real functions, stated bound, never counted as proved)
+	var standinResults []map[string]interface{}
+	for _, sd := range loadStandins() {
+		if sd.Prop != id || (sd.Tier == "thorough" && *tier != "thorough") {
+			continue
+		}
+		r := runStandin(p, sd)
+		standinResults = append(standinResults, r)
+		if ok, _ := r["passed"].(bool); !ok {
+			rec := map[string]interface{}{"property": id, "obligation": "bounded[" + sd.Test + "]", "reason": "bounded stand-in fails on the real functions", "replay": r}
+			rp := writeReplay(id, "bounded_"+sd.Test, rec)
+			if _, has := r["failing_inputs"]; has {
+				fmt.Printf("VIOLATION property=%s replay=%s\n", id, rp)
+			} else {
+				fmt.Printf("VIOLATION property=%s replay=%s no-failing-input-found\n", id, rp)
+			}
+			violations = append(violations, rec)
+		}
+	}
 	wall := time.Since(t0).Seconds()
 	level := "proof"
 	var fu []string
@@ -543,6 +621,7 @@ func cmdCheck(args []string) {
 		"samples":                  samples,
 		"known_findings":           known,
 		"not_proved":               notProved,
+		"bounded_standins":         standinResults,
 		"explanation":              "obligations are generated from the current /repo sources (go/ast + go/types, contracts in */contracts_verif.go) and discharged by SMT solvers; 'obligations' counts those claimed (in obligations.lock or new); 'not_proved' lists generated obligations that are not claimed (undecided.txt)",
 	}
 	if nObl == 0 || nDis == 0 {
@@ -598,4 +677,15 @@ func cmdReplay(args []string) {
 		os.Exit(2)
 	}
 	fmt.Println(string(b))
+}
+
+// baseName strips the occurrence index: "f#nil[x.y]#2" -> "f#nil[x.y]"
+func baseName(name string) string {
+	i := strings.LastIndex(name, "#")
+	if i > 0 && i > strings.Index(name, "#") {
+		if _, err := strconv.Atoi(name[i+1:]); err == nil {
+			return name[:i]
+		}
+	}
+	return name
 }
